@@ -877,6 +877,10 @@ class Gen:
             # files shared by several types (same stem in different directories too)
             it.export_to = self.r.choice([f"{px}{s}" if not s.startswith("../") else f"../{px}{s[3:]}" for s in self.SHARED]
                                          + [f"{px}s1/same.ts", f"{px}s2/same.ts"])
+            # the same file may be spelled differently by different types
+            if self.r.random() < 0.3 and "/" in it.export_to:
+                d, f = it.export_to.rsplit("/", 1)
+                it.export_to = self.r.choice([f"{d}/sub/../{f}", f"./{d}/{f}", f"{d}/./{f}", f"{d}/x/y/../../{f}"])
 
     def cycle_pair(self):
         """Two named structs referring to each other (through Option<Box<_>> / Vec<_>)."""
@@ -982,5 +986,6 @@ def metadata(g: Gen):
             "deps": sorted({d.id for d in it.deps()}),
             "text_children": sorted({d.id for d in it.text_children()}),
         }
-    entries = {eid: {"item": it.id, "rust": entry_rust(it, args)} for eid, it, args in g.entries}
+    entries = {eid: {"item": it.id, "rust": entry_rust(it, args),
+                     "arg_items": sorted({u.id for a in args for u in a.users()})} for eid, it, args in g.entries}
     return {"items": items, "entries": entries}
